@@ -30,7 +30,9 @@ def perturbations(shim):
 
 OPTSETS = [("default", []), ("Cf", ["-Cf"]), ("CF", ["-CF"]), ("CFe", ["-CFe"]), ("Cem-b", ["-Cem", "-b"]), ("tables", ["--tables-file=o.tables"]),
            ("header", ["--header-file=o.h"]), ("c99", ["--emit=c99"]), ("cxx", ["-+"]), ("reentrant-bison", ["--reentrant", "--bison-bridge"]),
-           ("Ca", ["-Ca"]), ("Cm", ["-Cm"])]
+           ("Ca", ["-Ca"]), ("Cm", ["-Cm"]),
+           # the serialized accepting lists exist only for REJECT / variable trailing context (round-7 seed C18-r7m3)
+           ("tables-reject", ["--tables-file=o.tables", "--reject"])]
 
 
 def generated_specs():
